@@ -168,6 +168,7 @@ MUTANTS["C20"] = [
     ("mutable-default-cache", "annet/annlib/patching.py", "def make_pre(diff: Diff, _parent_match=None) -> Dict[str, Any]:\n    pre = odict()", "_PRE_CACHE = {}\n\n\ndef make_pre(diff: Diff, _parent_match=None) -> Dict[str, Any]:\n    pre = odict()\n    if _parent_match is None and len(diff) == 1:\n        k = (diff[0][0], diff[0][1])\n        if k in _PRE_CACHE:\n            return _PRE_CACHE[k]\n        _PRE_CACHE[k] = pre"),
     ("aruba-mgmt-params-remembered", "annet/rulebook/aruba/ap_env.py", '    params = {\n        "ipaddr": None,', '    params = mgmt.__dict__.setdefault("params", {})\n    params.update({'+'k: params.get(k) for k in ("ipaddr", "netmask", "gatewayip", "dnsip", "domainname")})\n    _unused = {\n        "ipaddr": None,'),
     ("ref-tracker-configs-shared-by-all-trackers", "annet/reference.py", "    def __init__(self):\n        self.cfgs = {}\n        self.mapidx = {}", "    cfgs: dict = {}\n\n    def __init__(self):\n        self.mapidx = {}"),
+    ("rule-template-branches-on-the-software-release", "annet/rulebook/texts/huawei.rul", "%if hw.Huawei.Quidway:\n*/(ssh|telnet)/ server-source", "%if hw.Huawei.Quidway and not hw.soft.startswith(\"VRP V200R02\"):\n*/(ssh|telnet)/ server-source"),
 ]
 
 MUTANTS["C04"] = [
